@@ -256,3 +256,27 @@ package keeper
 //@ func Keeper.Logger(ctx) (l)
 //@   trusted the logger handle is not modelled; the method only derives a logger from the context
 //@   pure
+
+
+// ---------------------------------------------------------------- fee coins (read by the ante decorator)
+
+//@ func Keeper.GetZeroFeeAsCoin(ctx) (c)
+//@   props C06
+//@   pure
+//@   requires beaParamsSet(bea_store) && validDenom(beaParams(bea_store).Denom)
+//@   ensures c.Denom == beaParams(bea_store).Denom && !isnil(c.Amount) && Amt(c) == 0
+//@ func Keeper.GetRegistrationFeeAsCoin(ctx) (c)
+//@   props C06
+//@   pure
+//@   requires beaParamsSet(bea_store) && validDenom(beaParams(bea_store).Denom)
+//@   ensures c.Denom == beaParams(bea_store).Denom && !isnil(c.Amount) && Amt(c) == beaParams(bea_store).FeeRegister
+//@ func Keeper.GetRecordFeeAsCoin(ctx) (c)
+//@   props C06
+//@   pure
+//@   requires beaParamsSet(bea_store) && validDenom(beaParams(bea_store).Denom)
+//@   ensures c.Denom == beaParams(bea_store).Denom && !isnil(c.Amount) && Amt(c) == beaParams(bea_store).FeeRecord
+//@ func Keeper.GetPurchaseStorageFeeAsCoin(ctx) (c)
+//@   props C06
+//@   pure
+//@   requires beaParamsSet(bea_store) && validDenom(beaParams(bea_store).Denom)
+//@   ensures c.Denom == beaParams(bea_store).Denom && !isnil(c.Amount) && Amt(c) == beaParams(bea_store).FeePurchaseStorage
